@@ -471,14 +471,71 @@ HANG_CONFIRM = 6     # so many hangs are confirmed with the long watchdog,
 HANG_ABORT = 30      # after so many the remaining runs of the check are skipped (a tree that hangs everywhere)
 
 
+def load_factor():
+    """>= 1: how much longer than on an idle machine things may take right now"""
+    try:
+        return max(1.0, os.getloadavg()[0] / (os.cpu_count() or 1))
+    except OSError:
+        return 1.0
+
+
+CONFIRM_BUDGET = {"left": 3}     # configurations per check run that are re-run alone (a real hang costs 2 x the long limit)
+
+
+def confirm_trips(chk, runs, jobs, verdicts, variant):
+    """A timeout is only a violation when it is reproduced in 2 of 2 re-runs of that single configuration
+    ALONE (nothing else of the check running), with a limit 5x the original one, scaled further with the
+    machine's load.  Returns notes for the evidence."""
+    notes = {"confirmed": [], "not_reproduced": [], "not_individually_confirmed": 0}
+    cand = [k for k, r in enumerate(runs) if r.get("tripped")]
+    seen = set()
+    for k in cand:
+        r, job = runs[k], jobs[k]
+        key = json.dumps([job["plan"]["cfg"], job["plan"]["fault"]], sort_keys=True)
+        if key in seen or CONFIRM_BUDGET["left"] == 0:
+            # not re-run on its own: no verdict from this run
+            notes["not_individually_confirmed"] += 1
+            verdicts[r["idx"]] = dict(verdicts[r["idx"]], viol=[], anomalies=[], unconfirmed_trip=True)
+            continue
+        seen.add(key)
+        CONFIRM_BUDGET["left"] -= 1
+        limit = int(5 * 4000 * load_factor())
+        again = []
+        for n in (1, 2):
+            j2 = dict(job, isolated=True, noconfirm=True, timeout_ms=limit,
+                      rundir=os.path.join(stage_dir(), "confirm-" + variant, "r%05d-%d" % (job["idx"], n)))
+            rr = execute(j2)
+            if r.get("round") == 2 and rr.get("second") is not None:
+                rr = rr["second"]
+            again.append(rr)
+            if not rr.get("tripped"):
+                break
+        desc = {"variant": variant, "cfg": job["plan"]["cfg"], "fault": job["plan"]["fault"], "limit_ms": limit}
+        if len(again) == 2 and all(x.get("tripped") for x in again):
+            notes["confirmed"].append(desc)
+            rr = again[-1]
+        else:
+            notes["not_reproduced"].append(desc)
+            rr = again[-1]
+        rr["idx"] = r["idx"]
+        rr["events"][0]["run"] = r["idx"]
+        v, jres = judge(chk, [rr], "confirm-%s-%d" % (variant, r["idx"]))
+        for x in jres:
+            chk.add_tlc(x)
+        verdicts[r["idx"]] = v[r["idx"]]
+        runs[k] = rr
+    return notes
+
+
 def execute(job):
     """job: dict(idx, plan, variant, rundir, bindir, tools). Returns dict(events, raw) or None (skipped)."""
     with HANG_LOCK:
-        if HANGS["n"] >= HANG_ABORT:
-            HANGS["skipped"] += 1
-            return None
-        if HANGS["n"] >= HANG_CONFIRM and "timeout_ms" not in job:
-            job = dict(job, timeout_ms=1500, noconfirm=True)
+        if not job.get("isolated"):
+            if HANGS["n"] >= HANG_ABORT:
+                HANGS["skipped"] += 1
+                return None
+            if HANGS["n"] >= HANG_CONFIRM and "timeout_ms" not in job:
+                job = dict(job, timeout_ms=1500, noconfirm=True)
     rundir = job["rundir"]
     if os.path.isdir(rundir):
         shutil.rmtree(rundir)
@@ -541,7 +598,7 @@ def execute(job):
         if stops and not killed:
             # a program the tracer let go (-D) may still be on its way to its footprint and dump
             import glob as _g, time as _t
-            t_end = _t.time() + 5
+            t_end = _t.time() + (25 if job.get("isolated") else 5) * load_factor()
             while not _g.glob(helper + ".*.dump") and _t.time() < t_end:
                 _t.sleep(0.01)
         inh_pos = [os.lseek(f.fileno(), 0, os.SEEK_CUR) for f in (fi, fo, fe)]
@@ -589,10 +646,14 @@ def execute(job):
         events = assemble(ridx, cr, seg, info, dump)
         out.append({"idx": ridx, "events": events, "c": cr, "dplan": dplan, "inj": inj, "tracer": seg, "driver": dv, "dump": dump,
                     "helper_kind": os.path.basename(helper).rstrip("rcs"), "round": rnd})
-    if any(e["ev"] == "anomaly" and e["what"] == "TimedOut" for r in out for e in r["events"]) and not c["mayHang"]:
-        if job.get("timeout_ms", 4000) < 20000 and not job.get("noconfirm"):
-            # a hang of the code under test is deterministic; a slow machine is not: confirm with a long watchdog
-            return execute(dict(job, timeout_ms=20000))
+    # Verdicts that rest on a wall-clock limit (the watchdog, the wait for a released program's dump) are
+    # only TRIPS here; _run re-runs each tripped configuration alone with a much longer limit before any
+    # of them becomes a violation
+    tripped = any(e["ev"] == "anomaly" and (e["what"] == "TimedOut" or (e["what"] == "NoDump" and stops))
+                  for r in out for e in r["events"]) and not c["mayHang"]
+    for r in out:
+        r["tripped"] = tripped
+    if tripped and not job.get("isolated"):
         with HANG_LOCK:
             HANGS["n"] += 1
     first = out[0]
@@ -997,6 +1058,16 @@ def _run(tier):
         vres = {v: vf[v].result() for v in VARIANTS}
     core.log("all variants built, executed and judged %.1fs (includes waiting for the shared cargo lock)" % (time.time() - t0))
     t0 = time.time()
+    trips = {"confirmed": [], "not_reproduced": [], "not_individually_confirmed": 0}
+    for variant in VARIANTS:
+        info, jobs, runs, verdicts, jres = vres[variant]
+        n = confirm_trips(chk, runs, jobs, verdicts, variant)      # serial, nothing else running
+        trips["confirmed"] += n["confirmed"]
+        trips["not_reproduced"] += n["not_reproduced"]
+        trips["not_individually_confirmed"] += n["not_individually_confirmed"]
+    chk.extra["wall_clock_trips_confirmed_alone_2_of_2"] = {"count": len(trips["confirmed"]), "cfgs": trips["confirmed"][:6]}
+    chk.extra["wall_clock_trips_not_reproduced"] = {"count": len(trips["not_reproduced"]), "cfgs": trips["not_reproduced"][:6]}
+    chk.extra["wall_clock_trips_not_individually_confirmed"] = trips["not_individually_confirmed"]
     for variant in VARIANTS:
         info, jobs, runs, verdicts, jres = vres[variant]
         if MODEL_OF[variant] == variant:
@@ -1020,7 +1091,7 @@ def _run(tier):
             d = conformance(r, plan, v)
             if d:
                 drift.append({"variant": variant, "cfg": plan["cfg"], "fault": plan["fault"], "first": d[0]})
-            if not clauses:
+            if not clauses and not v.get("unconfirmed_trip"):
                 chk.traces += 1
             for cl in clauses:
                 sig = signature(plan, variant, cl, v)
@@ -1058,6 +1129,9 @@ def _run(tier):
         "model checking is exhaustive over the configuration x single-fault space of Spawn_MC.tla (every stdio "
         "combination on a base command and on a command using every other setting; the other dimensions with one (quick) / two (thorough) stdio tables); real executions cover every "
         "fault-free configuration of that space and, per (fault, predicted outcome) class, %d configurations" % (2 if tier == "quick" else 12),
+        "a verdict that rests on a wall-clock limit (watchdog, wait for a released program's dump) needs the timeout "
+        "reproduced in 2 of 2 re-runs of that configuration alone with a 5x limit scaled by the load; at most 3 "
+        "configurations per run of the check are confirmed that way, further trips give no verdict",
         "one injected failure per run; injected failures suppress the call (close: executed, result overwritten)",
         "caller/child interleaving: a third of the runs each free, caller-blocked-in-read-before-the-child-moves, "
         "child-finished-before-the-caller-closes-its-write-end (enforced by the tracer)",
